@@ -22,7 +22,7 @@ func init() {
 		Explanation: "DECIDED (for the repository's own code only): panic-site discharge (in every in-repo function reachable from the result decoders and DecoderFor, both target parsers and their scanner, Buckets.UnmarshalText, every flag.Value Set method and the resolver address normaliser, each instruction that can panic — slice/string index, slice expression, integer division/modulo, unchecked type assertion, write to a possibly nil map, explicit panic — is discharged by a dominating guard from an enumerated idiom list: range induction variable bounded by len of the same slice; constant index below a length interval derived from make/SplitN/Split/append/csv FieldsPerRecord and refined by dominating comparisons of len with constants; index len-1 or slice bounds [1:len-1] under a length lower bound; HasPrefix ⇒ len ≥ 1; divisor non-zero; modulo by len inside a loop over the same slice; constant index into a fixed array; map created in the function or guarded by a nil test) — an undischarged site is a violation naming the site; loop-progress (every loop in that scope is a counting/range loop or each way round it calls a consuming reader API (ReadBytes, Scan, Read, Decode, Next, lexer token consumption) whose failure leaves the loop); reader errors are propagated, not retried. " +
 			"NOT DECIDED: panics, allocation volume and termination inside encoding/gob, encoding/csv, easyjson's jlexer, datasize, time.ParseDuration and net (library code fed attacker-controlled bytes); 'memory proportional to input'.",
 		Assumptions: []string{"library parsers (gob, csv, jlexer, datasize, time, net, regexp) neither panic nor hang", "callers pass non-nil receivers/targets (nil target is checked explicitly)"},
-		MinObs:      25,
+		MinObs:      55,
 		Run:         runC16,
 	})
 }
@@ -343,7 +343,10 @@ func c16Roots(c *Ctx) []*ssa.Function {
 
 // ---- discharge --------------------------------------------------------------
 
+var c16Prog *Program
+
 func runC16(c *Ctx) {
+	c16Prog = c.P
 	roots := c16Roots(c)
 	fns := repoCallees(c, roots)
 	for _, f := range fns {
@@ -478,6 +481,9 @@ func dischargeSite(fn *ssa.Function, i ssa.Instruction) (kind, why string, ok, i
 			if why, ok := moduloLenInLoop(x); ok {
 				return "div", why, true, true
 			}
+			if why, ok := divisorIsLoopBound(x); ok {
+				return "div", why, true, true
+			}
 			return "div", "divisor " + describeVal(x.Y) + " may be zero (integer divide by zero panics)", false, true
 		}
 	case *ssa.TypeAssert:
@@ -580,6 +586,9 @@ func dischargeIndex(fn *ssa.Function, at ssa.Instruction, base, idx ssa.Value) (
 		if _, ok := moduloLenInLoop(rem); ok {
 			return "index", "x % len(s) inside a loop over s", true, true
 		}
+		if _, ok := divisorIsLoopBound(rem); ok {
+			return "index", "x % len(s) with len(s) the bound of the enclosing counting loop", true, true
+		}
 		if r := lenOfAt(base, blk); r.lo >= 1 {
 			return "index", "x % len(s), len ≥ 1", true, true
 		}
@@ -589,7 +598,7 @@ func dischargeIndex(fn *ssa.Function, at ssa.Instruction, base, idx ssa.Value) (
 
 // lenValueOf: v is len(s') where s' denotes the same slice as base (possibly a re-load of the same captured cell).
 func lenValueOf(v ssa.Value, base ssa.Value) bool {
-	call, ok := stripConv(v).(*ssa.Call)
+	call, ok := stripConv(resolveOnce(stripConv(v))).(*ssa.Call)
 	if !ok || callName(&call.Call) != "builtin:len" {
 		return false
 	}
@@ -659,7 +668,7 @@ func dischargeSlice(fn *ssa.Function, x *ssa.Slice) (string, string, bool, bool)
 
 // moduloLenInLoop: x % len(s) evaluated inside a counting loop whose bound is len(s): s is non-empty there.
 func moduloLenInLoop(rem *ssa.BinOp) (string, bool) {
-	lenCall, ok := stripConv(rem.Y).(*ssa.Call)
+	lenCall, ok := stripConv(resolveOnce(stripConv(rem.Y))).(*ssa.Call)
 	if !ok || callName(&lenCall.Call) != "builtin:len" {
 		return "", false
 	}
@@ -671,6 +680,27 @@ func moduloLenInLoop(rem *ssa.BinOp) (string, bool) {
 		}
 		if lenValueOf(bo.Y, s) {
 			return "inside `for range s`: index < len(s) with index ≥ 0 ⇒ len(s) ≥ 1", true
+		}
+	}
+	return "", false
+}
+
+// divisorIsLoopBound: the divisor is the same write-once value as the upper
+// bound B of a dominating `i < B` test where i counts up from 0, so B ≥ 1 here.
+func divisorIsLoopBound(div *ssa.BinOp) (string, bool) {
+	d := stripConv(div.Y)
+	for _, f := range factsAt(div.Block()) {
+		bo, ok := f.Cond.(*ssa.BinOp)
+		if !ok || !f.Val || bo.Op != token.LSS || !rangeIndexValue(bo.X) {
+			continue
+		}
+		b := stripConv(bo.Y)
+		if b == d {
+			return "divisor is the bound of the enclosing counting loop (≥ 1 inside the body)", true
+		}
+		cd, cb := loadedCell(d), loadedCell(b)
+		if cd != nil && cd == cb && resolveOnce(d) != d {
+			return "divisor is the (write-once) bound of the enclosing counting loop", true
 		}
 	}
 	return "", false
@@ -691,6 +721,32 @@ func mapNonNil(fn *ssa.Function, m ssa.Value, b *ssa.BasicBlock) (string, bool) 
 		if all {
 			return "all incoming maps non-nil", true
 		}
+	}
+	if par, isPar := m.(*ssa.Parameter); isPar && c16Prog != nil {
+		// a helper's map parameter: every call site in the repository passes a map that is non-nil there
+		idx := -1
+		for k, q := range fn.Params {
+			if q == par {
+				idx = k
+			}
+		}
+		nSites, okAll := 0, true
+		for _, g := range c16Prog.AllRepoFuncs() {
+			eachInstr(g, func(i ssa.Instruction) {
+				ci, ok := i.(ssa.CallInstruction)
+				if !ok || ci.Common().StaticCallee() != fn || idx >= len(ci.Common().Args) {
+					return
+				}
+				nSites++
+				if _, ok := mapNonNil(g, ci.Common().Args[idx], i.Block()); !ok {
+					okAll = false
+				}
+			})
+		}
+		if nSites > 0 && okAll {
+			return fmt.Sprintf("map parameter: non-nil at all %d call sites", nSites), true
+		}
+		return "", false
 	}
 	ld, ok := isLoad(m)
 	if !ok {
